@@ -16,6 +16,7 @@ def overlay(o):
     o.spec_module("field")
     o.spec_module("opaque_pv")
     o.spec_module("cuts")
+    o.spec_module("cuts_decoders")
     e = o.file("src/error.rs")
     e.wrap_item("enum", "Error")
     v = o.file("src/compiler/verifier.rs")
